@@ -69,7 +69,7 @@ def register(R):
 
 
 def register_tls(R):
-    R.ghost(TLSOUT="bytes")
+    R.ghost(TLSOUT="bytes", ssl_retry_calls="int")
     R.external("ssl.MemoryBIO", "stubs.async_backend.MemoryBIO")
     R.module(ST)
     R.shape("SSLObjectModel", cls="SSLObject", fields={})
@@ -86,16 +86,7 @@ def register_tls(R):
                 "__transport_send_lock": "LockModel", "__transport_recv_lock": "LockModel", "__closing": "bool", "__closed": "EventModel",
                 "__tls_extra_atributes": "obj"},
     )
-    R.assume("AsyncTLSStreamTransport._retry_ssl_method never calls aclose() on the wrapped transport (it only sends/receives); "
-             "its own contract (C09/C12) is checked separately")
-    R.contract(
-        "AsyncTLSStreamTransport._retry_ssl_method",
-        params={"ssl_object_method": "obj", "args": "obj"}, result="obj", trusted=True,
-        ensures=["True"],
-        raises={"BaseException": ["True"]},
-        env={"raise_any": "BaseException", "varargs": True},
-        modifies=["ghost.WIRE", "ghost.IN", "ghost.TLSOUT", "self._read_bio.eof", "self._write_bio.eof"],
-    )
+    # AsyncTLSStreamTransport._retry_ssl_method: its verified contract is in c_tls_recv (ghost.ssl_retry_calls counts its calls)
     closed = "self._transport.close_requested"
     R.contract(
         "AsyncTLSStreamTransport.aclose",
@@ -103,13 +94,22 @@ def register_tls(R):
             ("first-closer-requests-the-close-of-the-wrapped-transport", f"implies(not old(self.__closing), {closed})", "C14"),
             ("closing-flag-set", "self.__closing", "C14"),
             ("closed-event-set-by-the-first-closer", "implies(not old(self.__closing), self.__closed.flag)", "C14"),
+            ("in-standard-compatible-mode-the-first-closer-attempts-the-closing-handshake (unwrap: sends the close notification) unless the wrapped transport is found already closing",
+             "implies(not old(self.__closing) and self._standard_compatible, ghost.ssl_retry_calls == old(ghost.ssl_retry_calls) + 1 or (bound('WASCLOSING') and WASCLOSING))", "C09 C14"),
+            ("no-closing-handshake-when-not-standard-compatible-or-when-somebody-else-is-already-closing",
+             "implies(not self._standard_compatible or old(self.__closing), ghost.ssl_retry_calls == old(ghost.ssl_retry_calls))", "C09 C14"),
         ],
         raises={"BaseException": [
             ("close-requested-even-if-the-shutdown-fails-times-out-or-is-cancelled", f"implies(not old(self.__closing), {closed})", "C14"),
             ("closing-flag-set", "self.__closing", "C14"),
             ("closed-event-set-by-the-first-closer", "implies(not old(self.__closing), self.__closed.flag)", "C14"),
+            ("in-standard-compatible-mode-the-first-closer-attempts-the-closing-handshake (unwrap: sends the close notification) unless the wrapped transport is found already closing",
+             "implies(not old(self.__closing) and self._standard_compatible, ghost.ssl_retry_calls == old(ghost.ssl_retry_calls) + 1 or (bound('WASCLOSING') and WASCLOSING))", "C09 C14"),
+            ("no-closing-handshake-when-not-standard-compatible-or-when-somebody-else-is-already-closing",
+             "implies(not self._standard_compatible or old(self.__closing), ghost.ssl_retry_calls == old(ghost.ssl_retry_calls))", "C09 C14"),
         ]},
-        modifies=["self.__closing", "self.__closed.flag", "self._transport.close_requested", "self._read_bio.eof", "self._write_bio.eof",
+        env={"ghost_capture": {"is_closing": {"WASCLOSING": "result"}}},
+        modifies=["ghost.ssl_retry_calls", "self.__closing", "self.__closed.flag", "self._transport.close_requested", "self._read_bio.eof", "self._write_bio.eof",
                   "self._data_deque.items", "self.__incoming_reader.buffer", "self.__incoming_reader.buffer_view", "ghost.WIRE", "ghost.IN", "ghost.TLSOUT",
                   "ghost.tls_cause", "ghost.tls_ops_returned", "ghost.recv_calls", "ghost.EOF", "ghost.io_errors", "ghost.locks_held", "self._read_bio.pending", "self._write_bio.pending",
                   "self.__transport_send_lock.held_by_me", "self.__transport_recv_lock.held_by_me", "self.__incoming_reader.buffer.data", ],
